@@ -55,6 +55,15 @@ def scenarios(tier):
                 jobs.append((common.variant(scn, '/overlap', rp=True),
                              1 if quick else 2, 60 if quick else 900, 1,
                              ai + 0.6))
+            if ai == 0 and name in ('seq2', 'fork2', 'diamond',
+                                    'join_two_starts', 'join_one',
+                                    'err_route', 'publish_join', 'cyc_seq',
+                                    'nested_join', 'cmd_fail'):
+                # two executions of the same workflow side by side (shared
+                # caches, scheduler keys, locks): each must end correctly
+                jobs.append((common.variant(scn, '/x2', copies=2),
+                             1 if quick else 2, 60 if quick else 900, 1,
+                             ai + 0.65))
             has_join = any(t.get('join') for t in prog['tasks'].values())
             if has_join and (ai < 2 or not quick):
                 # joins are refreshed through scheduler jobs: the same
